@@ -266,6 +266,9 @@ def eq_harness(L, sw, ch, sr, variant, maxlen):
                 conds["reflexive"] = bool(r0 == r0)
                 conds["equal to a region over the same bytes"] = bool(r0 == core.AudioRegion(d0, sr, sw, ch))
                 conds["not equal to a non-region"] = not bool(r0 == 5)
+                ra = core.AudioRegion(d0, sr, sw, ch, start=SymRat(I("st_a"), 1000))
+                rb = core.AudioRegion(d0, sr, sw, ch, start=SymRat(I("st_b"), 1000))
+                conds["start/end metadata do not take part in equality"] = bool(ra == rb) and bool(ra == r0)
             else:
                 if (f[0] * f[1]) != (sw * ch):
                     # same byte string must still be a whole number of samples in the other format
@@ -398,6 +401,9 @@ def replay_fn(c):
             if c["variant"] == "same":
                 r1 = reg(1, c.get("n1", 0))
                 same = r0.data == r1.data
+                ra, rb = ak.AudioRegion(r0.data, sr, sw, ch, start=0.5), ak.AudioRegion(r0.data, sr, sw, ch, start=1.25)
+                if not (ra == rb) or not (ra == r0):
+                    return [("C17: regions with equal bytes and parameters but different start times compare unequal", "")]
                 if (r0 == r1) != same or not (r0 == ak.AudioRegion(r0.data, sr, sw, ch)) or (r0 == 5):
                     return [("C17: == is not byte-and-parameter equality", "regions of %d and %d samples" % (c["n0"], c.get("n1", 0)))]
                 return []
@@ -415,6 +421,7 @@ def replay(c):
 
 
 def run(rep):
+    tok.VALIDATE[0] = replay_fn
     L = loader.load()
     rep.hashes = L.hashes
     tier = rep.tier
